@@ -154,6 +154,26 @@ def upgrade_cycle(ctx, pms, fmt, textin, expected, case, version, key=None):
         if bad:
             ctx.violation("written-header-current", "the written header carries the current version and the proper type", case,
                           observed=[hv, ht], expected=[domains.CURRENT_VERSION, formats.HEADER_TYPE[fmt]])
+    if fmt == "rpms":
+        # the RPM manifest readers replace the object's content (both the current and the 0.3 one): a manifest loaded
+        # into an object that was used for another compose before is the same conversion
+        used = getattr(ctx, "_c05_used_rpms", None)
+        if used is not None:
+            try:
+                used.loads(textin)
+                t_used = used.dumps()
+            except Exception as e:
+                t_used = "raised %s: %s" % (type(e).__name__, str(e)[:120])
+            bad = t_used != t1
+            ctx.monitor("conversion-independent-of-object-history", fired=bad)
+            if bad:
+                i = 0
+                while i < min(len(t1), len(t_used)) and t1[i] == t_used[i]:
+                    i += 1
+                ctx.violation("conversion-independent-of-object-history", "the converted object carries the facts of the document that was "
+                              "loaded - not also those of a manifest the same object held before", case,
+                              observed=t_used[max(0, i - 80):i + 80], expected=t1[max(0, i - 80):i + 80], key=key)
+        ctx._c05_used_rpms = obj
     try:
         obj2 = formats.new_object(pms, fmt)
         obj2.loads(t1)
